@@ -212,6 +212,18 @@ class Ctx:
                 cases.append(json.loads(tlc_unquote(line[1:-1])))
         return cases, res
 
+    # -- seeded Go-side drivers ---------------------------------------------------
+    def gen(self, kind, n, seed_offset=0):
+        out = os.path.join(self.scratch, "gen_%s.ndjson" % kind)
+        p = subprocess.run([self.lqh, "gen", "-kind", kind, "-seed", str(self.seed + seed_offset), "-n", str(n),
+                            "-out", out], capture_output=True, text=True)
+        if p.returncode != 0:
+            raise Infra("lqh gen %s failed: %s" % (kind, p.stderr))
+        with open(out) as f:
+            cases = [json.loads(l) for l in f if l.strip()]
+        os.remove(out)
+        return cases
+
     # -- run cases through the implementation ---------------------------------
     def run_cases(self, cases, deadline=20, workers=None, binary=None):
         if not cases:
